@@ -55,7 +55,13 @@ fn check_inner(s: &str) -> Option<String> {
         "ab".to_string(),
         format!("\u{0e01}{}", s),
     ];
-    let hosts = ["{}", "(?>{})", "{}(?<={})", "(?={}){}", "(?:{})(?!\u{1})"];
+    let mut hosts = vec!["{}", "(?>{})", "{}(?<={})", "(?={}){}", "(?:{})(?!\u{1})"];
+    // free-spacing hosts: there white space is insignificant and `#` starts a comment, so `escape` must have quoted `#`; `escape` (like
+    // regex::escape) leaves white space alone, hence only needles without white space (added after seeded/C17-18)
+    if !s.chars().any(|c| c.is_whitespace()) {
+        hosts.push("(?x) {} (?!\u{1})");
+        hosts.push("(?x: {} )");
+    }
     for host in hosts {
         let pat = host.replace("{}", &e);
         let re = match Regex::new(&pat) {
